@@ -107,7 +107,22 @@ def work_core(task):
             rnd = random.Random((seed << 32) ^ (i * 2654435761 & 0xffffffff) ^ 0xC04)
             g = G.Gen(rnd, G.Cfg(max_depth=2, soft=0.08))
             scope = G.Scope()
-            pnode, pst = g.seq([], scope, 2, rnd.randint(1, 4))
+            # ballast: some prefixes start from an already deep stack (sub-expression contexts copy the
+            # whole stack and put back only the values they keep)
+            ballast, bst = [], []
+            if rnd.random() < 0.4:
+                for _ in range(rnd.randint(2, 6)):
+                    k = rnd.random()
+                    if k < 0.5:
+                        ballast.append(g.lit()); bst.append(G.C)
+                    elif k < 0.8:
+                        ballast.append(g.strlit()); bst.append(G.S)
+                    else:
+                        ballast.append(("elist",)); bst.append(G.Q)
+                ev.label("ballast")
+            pnode, pst = g.seq(list(bst), scope, 2, rnd.randint(1, 4))
+            if ballast:
+                pnode = ("cat", ballast + [pnode])
             if rnd.random() < 0.6:
                 pnode = ("cat", [pnode, ("alt", [g.lit(), g.strlit(), ("elist",)][:rnd.randint(2, 3)])])
                 pst = pst + [G.U]
@@ -166,6 +181,19 @@ def work_core(task):
                             bad = "let changed the stack: %r" % (list(set(l) - set(p))[:2],)
                         elif len(rl["res"]) != len(re_["res"]):
                             bad = "let yields %d stacks, E yields %d results" % (len(rl["res"]), len(re_["res"]))
+                        if not bad and len(est) == len(pst) + 1 and not any(s_ and s_[-1]["t"] == "k" for s_ in re_["res"]):
+                            # (a name bound to a block applies it instead of pushing it: not judged here)
+                            # "add only the bound names": the name must denote what E left on top, the stack
+                            # below must be the incoming one
+                            rx = run(drv, "%s let Xx := %s; Xx" % (P, E))
+                            if ok(rx) and not rx["stderr"]:
+                                ev.label("let-value")
+                                want = Counter(full([s_[-1]])[0] for s_ in re_["res"] if s_)
+                                got = Counter(full([s_[-1]])[0] for s_ in rx["res"] if s_)
+                                if want != got:
+                                    bad = "let bound %r, E leaves %r on top" % (list((got - want).elements())[:2], list((want - got).elements())[:2])
+                                elif len(rp["res"]) == 1 and any(full(s_[:-1]) != full(rp["res"][0]) for s_ in rx["res"]):
+                                    bad = "let changed the stack below the bound value"
                         if bad:
                             ev.violations.append({"property": PID, "query": "%s let Xx := %s;" % (P, E), "reason": bad, "signature": "C04:let:" + P + E})
             except DriverCrash as e:
